@@ -247,8 +247,13 @@ func init() {
 					}
 				}
 			}
+			wide := []shape{{9, 0, 0}, {9, 0, 3}, {65, 0, 0}, {65, 0, 2}, {2, 0, 1100}, {0, 1100, 1100}, {3, 0, 5000}}
 			for t := 0; t < dyn.NB; t++ {
-				for _, sh := range shapes {
+				shs := shapes
+				if t == dyn.Int8 || t == dyn.Uint32 || t == dyn.Float64 || t == dyn.Int64 {
+					shs = append(append([]shape{}, shapes...), wide...)
+				}
+				for _, sh := range shs {
 					base := c20Case{T: tn(t), C: sh.C, L: sh.L, K: sh.K}
 					noStorage := sh.C == 0 || sh.K == 0
 					add := func(op string, mod func(*c20Case)) {
@@ -292,7 +297,7 @@ func init() {
 			c.Sample(cases[3])
 			c.Sample(cases[len(cases)/3])
 			c.Sample(cases[len(cases)-1])
-			c.Set("rule", "ChannelLength(n,0) for n in 0..5; every allocator with Channels, Length, Capacity in 0..3, L<=K and at least one of them 0 (incl. the zero value) x 13 element types x {shape methods, Slice(0,0), Channel(c) shape methods, pool Get/AppendSample/Put twice, AppendSample x3 (no storage), Append of an empty buffer of capacity 0..2, Write/Read/WriteStriped/ReadStriped with slices of length 0..3, every conversion into and out of it (all 169 instantiations) against an equally degenerate and a normal 2-frame partner}; slice element types for reads/writes: all 13 at the zero allocator, same type + int8 + float64 elsewhere; oracle: no panic, lengths/capacities 0 where stated, every returned count 0, caller slices and partner buffers untouched; all cases distinct and non-trivial")
+			c.Set("rule", "ChannelLength(n,0) for n in 0..5; every allocator with Channels, Length, Capacity in 0..3, L<=K and at least one of them 0 (incl. the zero value) x 13 element types, plus 9- and 65-channel and 1100/5000-frame-capacity degenerate shapes for 4 types, x {shape methods, Slice(0,0), Channel(c) shape methods, pool Get/AppendSample/Put twice, AppendSample x3 (no storage), Append of an empty buffer of capacity 0..2, Write/Read/WriteStriped/ReadStriped with slices of length 0..3, every conversion into and out of it (all 169 instantiations) against an equally degenerate and a normal 2-frame partner}; slice element types for reads/writes: all 13 at the zero allocator, same type + int8 + float64 elsewhere; oracle: no panic, lengths/capacities 0 where stated, every returned count 0, caller slices and partner buffers untouched; all cases distinct and non-trivial")
 			c.Assume("Sample/SetSample have no valid index on these buffers and are not called")
 		},
 		RunCase: func(c *core.Ctx, raw json.RawMessage) []F { return c20Run(decode[c20Case](raw)) },
